@@ -173,7 +173,7 @@ where
 }
 
 macro_rules! for_ks {
-    ([$($k:literal),*], $K:ident => $body:block) => { $( { const $K: usize = $k; $body } )* };
+    ([$($k:literal),*], $K:ident => $body:block) => { $( { const $K: usize = $k; if $k <= crate::maxn() { $body } } )* };
 }
 macro_rules! for_es {
     ([$($e:ty),*], $E:ident => $body:block) => { $( { type $E = $e; $body } )* };
